@@ -1,6 +1,7 @@
 package world
 
 import (
+	"strings"
 	"context"
 	"encoding/hex"
 	"encoding/json"
@@ -95,6 +96,7 @@ type PermOp struct {
 	ID     string `json:"id"`
 	Kind   string `json:"kind"`   // gen att prop list lockacct unlockacct create lockwallet unlockwallet restart
 	Pass   string `json:"pass"`   // passphrase sent with unlockacct / unlockwallet (default: the world's)
+	Second string `json:"second"` // kinds "multi2" / "atts2": "wallet/account" of the batch's second entry
 	Client string `json:"client"` // "" = no authenticated identity
 	Wallet string `json:"wallet"`
 	WRaw   string `json:"wraw"`          // wallet operations: the wallet string actually sent when it differs from Wallet (e.g. "Wallet1/acc")
@@ -259,6 +261,7 @@ func RunPermScenario(ctx context.Context, sc *PermScenario, log *Log) error {
 		servedFor := ""
 		detail := ""
 		listed := []string{}
+		emitted := false
 		func() {
 			defer func() {
 				if p := recover(); p != nil {
@@ -350,6 +353,58 @@ func RunPermScenario(ctx context.Context, sc *PermScenario, log *Log) error {
 				} else {
 					detail = "error: " + err.Error()
 				}
+			case "multi2", "atts2":
+				// a two-entry batch over two accounts: each position is judged by itself (reported as two operations id.0 / id.1)
+				paths := []string{path, op.Second}
+				states := make([]pb.ResponseState, 2)
+				sigsb := make([][]byte, 2)
+				roots2 := make([][32]byte, 2)
+				if op.Kind == "multi2" {
+					req := &pb.MultisignRequest{}
+					for j, pth := range paths {
+						req.Requests = append(req.Requests, &pb.SignRequest{Id: &pb.SignRequest_Account{Account: pth}, Domain: dom("randao"), Data: rootBytes(fmt.Sprintf("M%d", j))})
+						roots2[j] = SigningRoot([32]byte(rootBytes(fmt.Sprintf("M%d", j))), dom("randao"))
+					}
+					if res, err := st.SignerH.Multisign(c, roundTrip(req, &pb.MultisignRequest{})); err == nil {
+						for j, rr := range res.GetResponses() {
+							if j < 2 {
+								states[j], sigsb[j] = rr.GetState(), rr.GetSignature()
+							}
+						}
+					}
+				} else {
+					req := &pb.SignBeaconAttestationsRequest{}
+					for j, pth := range paths {
+						req.Requests = append(req.Requests, &pb.SignBeaconAttestationRequest{Id: &pb.SignBeaconAttestationRequest_Account{Account: pth}, Domain: dom("att"),
+							Data: &pb.AttestationData{Slot: 1, CommitteeIndex: 1, BeaconBlockRoot: rootBytes("A"), Source: &pb.Checkpoint{Epoch: op.Epoch, Root: rootBytes("s")},
+								Target: &pb.Checkpoint{Epoch: op.Epoch + 1, Root: rootBytes("t")}}})
+						roots2[j] = SigningRoot(AttRoot(1, 1, rootBytes("A"), op.Epoch, rootBytes("s"), op.Epoch+1, rootBytes("t")), dom("att"))
+					}
+					if res, err := st.SignerH.SignBeaconAttestations(c, roundTrip(req, &pb.SignBeaconAttestationsRequest{})); err == nil {
+						for j, rr := range res.GetResponses() {
+							if j < 2 {
+								states[j], sigsb[j] = rr.GetState(), rr.GetSignature()
+							}
+						}
+					}
+				}
+				// (whether a refused request changed anything is judged on single requests; a position of a batch is judged on "served only if allowed")
+				for j, pth := range paths {
+					w2, a2, _ := strings.Cut(pth, "/")
+					srv := states[j] == pb.ResponseState_SUCCEEDED && len(sigsb[j]) > 0
+					// a signature at position j that verifies for ANOTHER position's account counts for that account
+					if srv && !VerifySig(pubOf(pth), roots2[j], sigsb[j]) {
+						for jj, p2 := range paths {
+							if VerifySig(pubOf(p2), roots2[jj], sigsb[j]) {
+								w2, a2, _ = strings.Cut(p2, "/")
+							}
+						}
+					}
+					log.Emit(Ev{"ev": "PermOp", "id": fmt.Sprintf("%s.%d", op.ID, j), "kind": map[string]string{"multi2": "gen", "atts2": "att"}[op.Kind], "client": op.Client, "wallet": w2, "acct": a2,
+						"keyof": "", "served": srv, "listed": listed, "servedfor": "", "changed": false, "detail": states[j].String(), "pub": "", "locks": lockState(ctx, b)})
+				}
+				emitted = true
+				return
 			case "lockacct":
 				res, err := st.AcctH.Lock(c, roundTrip(&pb.LockAccountRequest{Account: path}, &pb.LockAccountRequest{}))
 				served = err == nil && res.GetState() == pb.ResponseState_SUCCEEDED
@@ -372,6 +427,9 @@ func RunPermScenario(ctx context.Context, sc *PermScenario, log *Log) error {
 				detail = fmt.Sprint(res.GetState())
 			}
 		}()
+		if emitted {
+			continue
+		}
 		after := snapshot(ctx, st, b)
 		log.Emit(Ev{"ev": "PermOp", "id": op.ID, "kind": op.Kind, "client": op.Client, "wallet": op.Wallet, "acct": op.Acct, "keyof": op.KeyOf,
 			"served": served, "listed": listed, "servedfor": servedFor, "changed": before != after, "detail": detail, "pub": hex.EncodeToString(pub), "locks": lockState(ctx, b)})
